@@ -44,6 +44,9 @@ pub enum Atom {
     Short,
     /// issues its own GET through the `Client` it was given, then runs the rest of the chain
     Own,
+    /// like `Own`, but the inner GET carries a per-request middleware of its own (a `Pass` tagged
+    /// "<tag> inner-mw"), built with the given client's builder: `client.get(..).middleware(m).await`
+    OwnMw,
     /// runs the rest of the chain twice (first with a body-less copy)
     Twice,
     /// the real `crux_http::middleware::Redirect::new(n)`
@@ -51,7 +54,7 @@ pub enum Atom {
 }
 
 pub const STACK_ATOMS: &[Atom] =
-    &[Atom::Pass, Atom::Short, Atom::Own, Atom::Twice, Atom::Redirect(1), Atom::Redirect(2)];
+    &[Atom::Pass, Atom::Short, Atom::Own, Atom::OwnMw, Atom::Twice, Atom::Redirect(1), Atom::Redirect(2)];
 
 #[derive(Debug, Clone, Copy, PartialEq, Eq, PartialOrd, Ord, Serialize, Deserialize)]
 pub enum Api {
@@ -458,6 +461,18 @@ impl RefRun<'_> {
                 self.out.marks.push(format!("{tag} own-exit {}", r.mark()));
                 Ok(r)
             }
+            Atom::OwnMw => {
+                self.out.marks.push(format!("{tag} own-enter"));
+                let side = RReq { method: "GET", url: Url::parse(SIDE).unwrap(), body: vec![], stale_url: None };
+                // the inner request's own middleware wraps it; the outer stack is not re-entered
+                self.out.marks.push(format!("{tag} inner-mw enter"));
+                let inner = self.shell(&side, Kind::Plain, false)?;
+                self.out.marks.push(format!("{tag} inner-mw exit {}", inner.mark()));
+                self.out.marks.push(format!("{tag} own-inner {}", inner.mark()));
+                let r = self.chain(rest, req)?;
+                self.out.marks.push(format!("{tag} own-exit {}", r.mark()));
+                Ok(r)
+            }
             Atom::Twice => {
                 self.out.marks.push(format!("{tag} twice-enter"));
                 let mut copy = req.clone();
@@ -632,6 +647,17 @@ impl Middleware for AtomMw {
             Atom::Own => {
                 log(format!("{tag} own-enter"));
                 let inner = client.get(SIDE).await;
+                log(format!("{tag} own-inner {}", res_mark(&inner)));
+                let r = next.run(req, client).await;
+                log(format!("{tag} own-exit {}", res_mark(&r)));
+                r
+            }
+            Atom::OwnMw => {
+                log(format!("{tag} own-enter"));
+                let inner = client
+                    .get(SIDE)
+                    .middleware(AtomMw { atom: Atom::Pass, tag: format!("{tag} inner-mw"), log: self.log.clone() })
+                    .await;
                 log(format!("{tag} own-inner {}", res_mark(&inner)));
                 let r = next.run(req, client).await;
                 log(format!("{tag} own-exit {}", res_mark(&r)));
